@@ -59,3 +59,13 @@ Theorem C07_example :
   lookup_st st 150000000015 = None /\ lookup_st st 150000000033 = Some 4.
 Proof. exact unchunked_example. Qed.
 Print Assumptions C07_example.
+
+(* with compression or checksums (needs_chunking) continuous mode stores gaps exactly as gapped mode
+   does: every single-block call -- the only kind continuous mode accepts -- has the same return code
+   and yields the same state (files, index rows, data, cursor) whichever way the continuous flag is set *)
+From DRF Require Import Proofs.WriterMono.
+
+Theorem C07_chunked_continuous_equals_gapped : forall c st g vec, c_chunk c = true ->
+  write_one (flip_cont c) st g vec = write_one c st g vec.
+Proof. exact chunked_continuous_equals_gapped. Qed.
+Print Assumptions C07_chunked_continuous_equals_gapped.
